@@ -41,6 +41,10 @@ def relevant(prop, m):
             (k == "outcome" and ("err" in m.detail) and "panic" not in m.detail) or (k == "arg-modified" and setter)
     if prop == "C15":
         return (k == "outcome" and "panic" in m.detail) or k == "recv-on-fail"
+    # a live point clobbered by a rejected decoding/import is then read wrongly by this property's reader (the oracle continues from
+    # what the implementation holds, so the later read itself agrees): count the clobbering against the properties about those readers
+    if k == "recv-on-fail" and prop in ("C05", "C13", "C17") and op in ("P.SetBytes", "P.SetExtendedCoordinates") and "panic" not in m.detail:
+        return True
     ops = OPS.get(prop, set())
     if op not in ops:
         return False
